@@ -66,6 +66,19 @@ def run(ctx):
                 cases.append((q + "\\x" + a + b + q, chr(v), "\\x complete"))
             else:
                 cases.append((q + "\\x" + a + b + q, "x" + a + b, "\\x incomplete"))
+    # ... and, whatever the tier, every pair over the characters AROUND the hex digits (the rest of their ASCII columns, their case-folded and control-byte twins)
+    nearhex = "0123456789:;<=>?/@ABCDEFG`abcdefg" + "".join(chr(c) for c in (0x10, 0x11, 0x19, 0x1a, 0x01, 0x06, 0x21, 0x26, 0x27, 0x41 - 0x40, 0x7f))
+    for a in nearhex:
+        for b in nearhex:
+            for q in "'\"":
+                if a == q or a == "\\" or b == q or b == "\\":
+                    continue
+                if a in HEXD and b in HEXD:
+                    v = int(a + b, 16)
+                    if 0 < v <= 127:
+                        cases.append((q + "\\x" + a + b + q, chr(v), "\\x complete"))
+                else:
+                    cases.append((q + "\\x" + a + b + q, "x" + a + b, "\\x incomplete"))
     for q in "'\"":
         cases.append((q + "\\x" + q, "x", "\\x incomplete"))
         cases.append((q + "ab\\x" + q, "abx", "\\x incomplete"))
